@@ -465,6 +465,28 @@ pub fn gen_case(rng: &mut Rng, tier: &str, _profile: &str, stats: &mut Stats) ->
         ops.push(format!("clen {}", t));
         return ops;
     }
+    if rng.chance(1, 10) {
+        // directed: the cache is swept while an entry is still alive (half a ttl old); the entry is then
+        // looked up when it is 1.3 ttl old - less than one ttl after the sweep: it has expired, whatever
+        // the sweep concluded about "everything that is left"
+        stats.bump("gen.sweep-then-lookup-of-an-entry-that-expired-since");
+        let ttl = 100u64;
+        let capt = match cap { Some(0) => "2".to_string(), Some(c) => c.to_string(), None => "none".into() };
+        let mut ops = vec![format!("cnew {} {}", ttl, capt)];
+        let k = rng.below(nkeys);
+        ops.push(format!("cins 0 {} {}", k, rng.below(100)));
+        if rng.chance(1, 2) && nkeys > 1 {
+            ops.push(format!("cins 0 {} {}", (k + 1) % nkeys, rng.below(100)));
+        }
+        ops.push("csweep 50".into());
+        match rng.below(3) {
+            0 => ops.push(format!("cget 130 {}", k)),
+            1 => ops.push(format!("cpeek 130 {}", k)),
+            _ => ops.push(format!("cgm 130 {} {}", k, rng.below(100))),
+        }
+        ops.push("clen 130".into());
+        return ops;
+    }
     let keepalive = rng.chance(1, 3);
     let mut long_budget = if rng.chance(3, 5) { 1 } else { 0 };
     let drain = rng.chance(1, 2);
